@@ -8,6 +8,7 @@ import (
 	sdkmath "cosmossdk.io/math"
 	sdk "github.com/cosmos/cosmos-sdk/types"
 	authtypes "github.com/cosmos/cosmos-sdk/x/auth/types"
+	banktypes "github.com/cosmos/cosmos-sdk/x/bank/types"
 	"github.com/cosmos/cosmos-sdk/types/query"
 
 	ucdaokeeper "github.com/haqq-network/haqq/x/ucdao/keeper"
@@ -16,7 +17,8 @@ import (
 
 // Driver for specs/Ucdao.tla (property C12).
 //
-// Script step (from TLC):  {"ev": "fund"|"transfer_all"|"transfer_amount"|"transfer_ratio"|"set_enabled",
+// Script step (from TLC):  {"ev": "fund"|"transfer_all"|"transfer_amount"|"transfer_ratio"|"set_enabled"|
+//                                 "reimport"|"transfer_dup"|"bank_send"|"bank_multisend",
 //                           "args": {...}, "ok": <model's prediction, ignored here>}
 // Trace line:              {"ev","args","ok","err","post": <ledger state>, "scn": n}
 // A "reset" line starts a scenario and carries the initial state.
@@ -175,6 +177,13 @@ func newDaoEnv(seed int64, names, denoms []string, initBank map[string]string) *
 // step executes one abstract action on the real message server.
 func (d *daoEnv) step(st daoStep) (bool, string) {
 	acct := func(k string) sdk.AccAddress { return d.keys[st.Args[k].(string)].Addr }
+	// recipient of a foreign message: an account of the scenario or the DAO module account ("dao")
+	rcpt := func(n string) sdk.AccAddress {
+		if n == "dao" {
+			return authtypes.NewModuleAddress(ucdaotypes.ModuleName)
+		}
+		return d.keys[n].Addr
+	}
 	var msg sdk.Msg
 	switch st.Ev {
 	case "fund":
@@ -189,6 +198,19 @@ func (d *daoEnv) step(st daoStep) (bool, string) {
 		// log the ratio the message really carries (18-decimal fixed point)
 		st.Args["ratio"] = []any{ratio.BigInt().String(), "1000000000000000000"}
 		msg = ucdaotypes.NewMsgTransferOwnershipWithRatio(acct("owner"), acct("newOwner"), ratio)
+	case "bank_send":
+		// x/bank through the message router (haqq's wrapper of the bank message server)
+		msg = banktypes.NewMsgSend(acct("from"), rcpt(st.Args["to"].(string)), d.coins(st.Args["coins"].(M)))
+	case "bank_multisend":
+		// one input = the sum of the outputs
+		sum := sdk.Coins{}
+		var outs []banktypes.Output
+		for _, o := range st.Args["outs"].([]any) {
+			c := d.coins(o.(M)["coins"].(M))
+			sum = sum.Add(c...)
+			outs = append(outs, banktypes.NewOutput(rcpt(o.(M)["to"].(string)), c))
+		}
+		msg = banktypes.NewMsgMultiSend([]banktypes.Input{banktypes.NewInput(acct("from"), sum)}, outs)
 	case "reimport":
 		// ExportGenesis -> empty the module's store -> InitGenesis (the optional declared total kept or left out)
 		bk := d.App.DaoKeeper.(ucdaokeeper.BaseKeeper)
@@ -292,6 +314,9 @@ func ucdaoMain(args []string) error {
 		d.cfg = &daoCfg{Names: names, Denoms: denoms, InitBank: ib, Seed: s}
 		r := d.Rand
 		pickAmt := func(max string) string {
+			if max == "" {
+				max = "40000000000000000000"
+			}
 			m := mustBig(max)
 			switch r.Intn(6) {
 			case 0:
@@ -322,10 +347,36 @@ func ucdaoMain(args []string) error {
 				} else if dn == "bad" && r.Intn(4) != 0 {
 					coins[dn] = "0"
 				} else {
-					coins[dn] = pickAmt("900000000000000000000")
+					// within what an account can pay a few times over (aLIQUID7 and bad are scarce)
+					coins[dn] = pickAmt(map[string]string{"aISLM": "900000000000000000000", "aLIQUID0": "300000000000000000000", "aLIQUID7": "400", "bad": "20"}[dn])
 				}
 			}
-			switch r.Intn(10) {
+			// liquid coins for a foreign (bank) message
+			bankCoins := func() M {
+				c := M{}
+				for _, dn := range denoms {
+					c[dn] = "0"
+					if r.Intn(3) == 0 {
+						c[dn] = pickAmt(map[string]string{"aLIQUID7": "300", "bad": "20"}[dn])
+					}
+				}
+				return c
+			}
+			rcpt := func() string {
+				if r.Intn(3) == 0 {
+					return "dao"
+				}
+				return names[r.Intn(len(names))]
+			}
+			switch r.Intn(12) {
+			case 10:
+				script = append(script, daoStep{"bank_send", M{"from": a, "to": rcpt(), "coins": bankCoins()}})
+			case 11:
+				var outs []any
+				for n := 1 + r.Intn(4); n > 0; n-- {
+					outs = append(outs, M{"to": rcpt(), "coins": bankCoins()})
+				}
+				script = append(script, daoStep{"bank_multisend", M{"from": a, "outs": outs}})
 			case 0, 1, 2, 3:
 				script = append(script, daoStep{"fund", M{"acct": a, "coins": coins}})
 			case 4:
@@ -333,8 +384,12 @@ func ucdaoMain(args []string) error {
 			case 5, 6:
 				script = append(script, daoStep{"transfer_amount", M{"owner": a, "newOwner": b, "coins": coins}})
 			case 7, 8:
-				num := fmt.Sprint(1 + r.Intn(1000))
-				script = append(script, daoStep{"transfer_ratio", M{"owner": a, "newOwner": b, "ratio": []any{num, "1000"}}})
+				// three decimals, or all eighteen the message can carry
+				num, den := fmt.Sprint(1+r.Intn(1000)), "1000"
+				if r.Intn(2) == 0 {
+					num, den = fmt.Sprint(1+r.Int63n(1000000000000000000)), "1000000000000000000"
+				}
+				script = append(script, daoStep{"transfer_ratio", M{"owner": a, "newOwner": b, "ratio": []any{num, den}}})
 			case 9:
 				switch r.Intn(3) {
 				case 0:
@@ -351,6 +406,29 @@ func ucdaoMain(args []string) error {
 		scn++
 		tw.Emit(M{"ev": "reset", "scn": scn, "src": "random", "cfg": d.cfg, "post": d.project()})
 		for _, st := range script {
+			// most transfers are signed by somebody who holds a share at that point (also decided while running)
+			if _, isTransfer := st.Args["owner"]; isTransfer && r.Intn(4) != 0 {
+				has := map[string]bool{}
+				d.App.DaoKeeper.IterateAllBalances(d.Ctx, func(addr sdk.AccAddress, c sdk.Coin) bool {
+					if c.Amount.IsPositive() {
+						has[addr.String()] = true
+					}
+					return false
+				})
+				var hs []string
+				for _, n := range names {
+					if has[d.keys[n].Addr.String()] {
+						hs = append(hs, n)
+					}
+				}
+				if len(hs) > 0 {
+					self := st.Args["owner"] == st.Args["newOwner"]
+					st.Args["owner"] = hs[r.Intn(len(hs))]
+					if self {
+						st.Args["newOwner"] = st.Args["owner"]
+					}
+				}
+			}
 			if st.Ev == "transfer_amount" {
 				own := d.keys[st.Args["owner"].(string)].Addr
 				coins := st.Args["coins"].(M)
